@@ -196,6 +196,24 @@ func H_reuse(v *zzverif.T) {
 	same("second-other-inputs", r2, fresh(db))
 	r3 := zzApplyOn(v, used, zzRTensors(da))
 	same("third-first-inputs-again", r3, fresh(da))
+	// two instances initialised before either is applied (another operator type or other attributes): each
+	// still means its own node
+	if v.Has("op2") {
+		op2, attrs2 := v.CStr("op2"), v.CStr("attrs2")
+		i1, e1, p1 := zzInitOp(v, op, zzRAttrs(attrs))
+		i2, e2, p2 := zzInitOp(v, op2, zzRAttrs(attrs2))
+		v.Assert(prop+".reuse.two-instances-initialise", !p1 && !p2 && e1 == nil && e2 == nil)
+		if !p1 && !p2 && e1 == nil && e2 == nil {
+			f1 := fresh(da)
+			ra := zzApplyOn(v, i1, zzRTensors(da))
+			same("first-of-two-instances", ra, f1)
+			rb := zzApplyOn(v, i2, zzRTensors(da))
+			fb, ferr, fp := zzInitOp(v, op2, zzRAttrs(attrs2))
+			if !fp && ferr == nil {
+				same("second-of-two-instances", rb, zzApplyOn(v, fb, zzRTensors(da)))
+			}
+		}
+	}
 	// the very same tensor objects twice (an operator that marks its inputs shows here)
 	shared := zzRTensors(db)
 	r4 := zzApplyOn(v, used, shared)
